@@ -6,5 +6,5 @@ LEVEL = "proof"
 
 
 def run(chk, replay=None):
-    proccheck.run(chk, "PropC11", {'exit': 7, 'mixed': 2, 'all_ok': 1}, 260, 4000, [501, 502], replay=replay)
+    proccheck.run(chk, "PropC11", {'exit': 7, 'mixed': 2, 'all_ok': 1}, 260, 4000, [501, 502, 503], replay=replay)
     exitcheck.run_stage(chk)
